@@ -22,7 +22,7 @@ type c10Item struct {
 }
 
 func checkC10(c *core.Ctx) []core.Floor {
-	c.Rule = "statement trees over the whole supported grammar (SELECT with select list / aliases with and without AS / COUNT / AVG / qualified names / 0-2 joins of each type with and without INNER / WHERE / GROUP BY 1-n comma separated / ORDER BY 1-3 keys with and without ASC|DESC / LIMIT and OFFSET in either order; INSERT with and without column list, 1-5 rows; UPDATE with 1-4 SET items; DELETE; CREATE TABLE with all four types; CREATE DATABASE; USE; SHOW DATABASE(S)); every AND/OR expression shape with <= 5 predicates is enumerated; each tree is rendered 4 ways (keyword case, whitespace incl. tabs/newlines/minimal, optional keywords, bare/quoted identifiers, integer literals with leading zeros); groups of statements that differ only in the blanks inside one quoted literal or identifier are parsed back to back in one process; 1 in 40 is an INSERT of 20-60 rows of multi-byte string literals (text of several kilobytes) and parsed through the real tokenizer+parser; the parsed statement, converted to a neutral form with AND/OR chains flattened, must equal the generated tree. Distinct = rendered text; non-trivial = the statement has at least one comma separated list with >= 2 elements or a boolean expression with >= 2 predicates."
+	c.Rule = "statement trees over the whole supported grammar (SELECT with select list / aliases with and without AS / COUNT / AVG / qualified names / 0-2 joins of each type with and without INNER / WHERE / GROUP BY 1-n comma separated / ORDER BY 1-3 keys with and without ASC|DESC / LIMIT and OFFSET in either order; INSERT with and without column list, 1-5 rows; UPDATE with 1-4 SET items; DELETE; CREATE TABLE with all four types; CREATE DATABASE; USE; SHOW DATABASE(S)); every AND/OR expression shape with <= 5 predicates is enumerated; each tree is rendered 4 ways (keyword case, whitespace incl. tabs/newlines/minimal, optional keywords, bare/quoted identifiers, integer literals with leading zeros); groups of statements that differ only in the blanks inside one quoted literal or identifier are parsed back to back in one process; 1 in 80 carries a single literal or quoted identifier of 1.2-6 KB of mixed-width characters; 1 in 40 is an INSERT of 20-60 rows of multi-byte string literals (text of several kilobytes) and parsed through the real tokenizer+parser; the parsed statement, converted to a neutral form with AND/OR chains flattened, must equal the generated tree. Distinct = rendered text; non-trivial = the statement has at least one comma separated list with >= 2 elements or a boolean expression with >= 2 predicates."
 	c.Assume = []string{"positions (line/column) and keyword spelling are not compared", "string literals contain no quote, backslash or newline"}
 	drv := mustDriver(c, false)
 	n := 8000
@@ -56,6 +56,11 @@ func checkC10(c *core.Ctx) []core.Floor {
 		t := g.Any()
 		trees = append(trees, t)
 		tags = append(tags, t.Kind)
+	}
+	for i := 0; i < n/80; i++ {
+		trees = append(trees, g.HugeToken())
+		tags = append(tags, "huge_token")
+		c.Count("statements_with_a_token_longer_than_a_read_buffer", 1)
 	}
 	for i := 0; i < n/40; i++ {
 		trees = append(trees, g.LongInsert())
@@ -118,7 +123,7 @@ func checkC10(c *core.Ctx) []core.Floor {
 		}
 	})
 	c.Sample(4, map[string]interface{}{"tree": trees[len(trees)-1], "renderings": []string{items[len(items)-4].text, items[len(items)-3].text, items[len(items)-2].text, items[len(items)-1].text}})
-	return []core.Floor{{Key: "parsed_equal", Min: 5000}, {Key: "boolean_shapes_enumerated", Min: 93}, {Key: "list_select_ge3", Min: 20}, {Key: "list_values_rows_ge3", Min: 20}, {Key: "list_set_ge3", Min: 20}, {Key: "list_group_ge2", Min: 20}, {Key: "list_order_ge3", Min: 20}, {Key: "list_defs_ge3", Min: 20}, {Key: "statements_longer_than_1024_bytes", Min: 100}, {Key: "whitespace_twin_statements", Min: 100}}
+	return []core.Floor{{Key: "parsed_equal", Min: 5000}, {Key: "boolean_shapes_enumerated", Min: 93}, {Key: "list_select_ge3", Min: 20}, {Key: "list_values_rows_ge3", Min: 20}, {Key: "list_set_ge3", Min: 20}, {Key: "list_group_ge2", Min: 20}, {Key: "list_order_ge3", Min: 20}, {Key: "list_defs_ge3", Min: 20}, {Key: "statements_longer_than_1024_bytes", Min: 100}, {Key: "whitespace_twin_statements", Min: 100}, {Key: "statements_with_a_token_longer_than_a_read_buffer", Min: 50}}
 }
 
 func condPreds(cn *proto.Cond) int {
